@@ -101,6 +101,7 @@ def rankedRule (rule : String) (j : Json) : Except String (Option RankedRule) :=
     let l ← a.mapM jsonRat
     pure (some (.pa (coefOfList l) (rule = "pa_list")))
   | "pa_call" => pure (some (.pa ShapeSeq.coefOklahoma true))
+  | "pa_call_whole" => pure (some (.pa ShapeSeq.coefOklahoma false))
   | "copeland" => do pure (some (.copeland ((← j.getObjValAs? Nat "param") != 0)))
   | "minimax_wv" => pure (some (.minimax .winningVotes))
   | "minimax_margins" => pure (some (.minimax .margins))
@@ -262,6 +263,9 @@ def handle (op : String) (j : Json) : Option (Except String Json) :=
               let i ← mv.getObjValAs? Nat "pos"
               if !liftOK w i x then throw "lift: not an upward move"
               pure (replaceUnit b x (lift w i x))
+            | "join" => do
+              let x ← nthKey b (← mv.getObjValAs? Nat "ballot")
+              pure (replaceUnit b x (joinAbove w x))
             | k => throw s!"ranked: unknown move {k}"
           pure (answer (slotsE (evalRanked r b)) (slotsE (evalRanked r p)) (some (dictJson ballotJson moved)))
   | _ => none
